@@ -17,7 +17,7 @@ pub enum Value { Empty, Other(u64) }
 #[derive(Clone, Copy)]
 pub struct FunctionsRef { pub id: u64 }
 impl FunctionsRef { pub fn clone(&self) -> (r: FunctionsRef) ensures r == *self, { *self } }
-pub struct BlockConfig { pub namespace: u64, pub disabled: bool }
+pub struct BlockConfig { pub namespace: u64, pub disabled: bool, pub hidden: bool, pub output: bool }
 pub struct FencedMechCode { pub code: Vec<(MechCode, Option<Comment>)>, pub config: BlockConfig }
 
 pub enum Ev { Code(MechCode), Cmt(Comment) }
